@@ -68,8 +68,18 @@ pub fn gen_history(g: &mut Genes, cfg: &HistCfg) -> Json {
                     // a burst of two or three text nodes appended to one parent (sequences that only arise by adjacency)
                     let tk = ["element", "attr", "detached-element"][g.weighted(&[5, 2, 2])];
                     let target = json!([rp, tk]);
-                    for _ in 0..(2 + g.pick(2)) {
-                        ops.push(json!({"op": "create_text", "d": d, "s": pick_str(g, data)}));
+                    // half of the bursts spell a sequence that is forbidden only as a whole, split over the pieces
+                    const SPLITS: &[&[&str]] = &[
+                        &["]", "]", ">"], &["]]", "", ">"], &["]", "", "]>"], &["]]", ">"], &["a]]", "", ">b"], &["]", "]>"], &["x]", "]", "", ">"],
+                        &["\"", "'"], &["'", "", "\""], &["it's", " \"q\""],
+                    ];
+                    let pieces: Vec<String> = if !cfg.safe_strings && g.chance(1, 2) {
+                        SPLITS[g.pick(SPLITS.len())].iter().map(|s| s.to_string()).collect()
+                    } else {
+                        (0..(2 + g.pick(2))).map(|_| pick_str(g, data)).collect()
+                    };
+                    for s in pieces {
+                        ops.push(json!({"op": "create_text", "d": d, "s": s}));
                         ops.push(json!({"op": "append", "p": target.clone(), "c": [65535, "recent"]}));
                     }
                 }
@@ -123,7 +133,7 @@ pub fn gen_history(g: &mut Genes, cfg: &HistCfg) -> Json {
         };
         let op = match class {
             0 => {
-                let p = filt(g, ra, &["any", "element", "container", "detached-element", "recent", "document", "attr"], &[1, 6, 2, 2, 1, 1, 1]);
+                let p = filt(g, ra, &["any", "element", "container", "detached-element", "recent", "document", "attr"], &[1, 6, 2, 2, 1, 2, 2]);
                 let c = filt(g, rb, &["any", "content", "element", "leaf", "detached", "recent", "doc-level", "expandedtext"], &[1, 4, 3, 2, 2, 2, 1, 1]);
                 let r = filt(g, rc, &["any", "content"], &[1, 3]);
                 // mostly a real child of the receiver as reference / old / removed child
@@ -131,6 +141,10 @@ pub fn gen_history(g: &mut Genes, cfg: &HistCfg) -> Json {
                 let r = if rel { json!([rc, "child-of", p.clone()]) } else { r };
                 // now and then the new child is an ancestor of the receiver (must be refused: hierarchy)
                 let c = if g.chance(1, 12) { json!([rb, "ancestor-of", p.clone()]) } else { c };
+                // a document receiver mostly gets what may live below a document (its element, its document type)
+                let c = if p.as_array().map(|a| a.get(1) == Some(&json!("document"))).unwrap_or(false) && g.chance(2, 3) { json!([rb, "doc-level"]) } else { c };
+                // an attribute receiver mostly gets text-like nodes (merged text nodes in the merged view)
+                let c = if p.as_array().map(|a| a.get(1) == Some(&json!("attr"))).unwrap_or(false) && g.chance(1, 2) { json!([rb, "expandedtext"]) } else { c };
                 match g.weighted(&[4, 3, 2, 3]) {
                     0 => json!({"op": "append", "p": p, "c": c}),
                     1 => json!({"op": "insert_before", "p": p, "c": c, "r": r}),
